@@ -20,6 +20,10 @@ import (
 	"time"
 )
 
+// Progress counts scheduler steps of all runs of this process; the harness watchdog looks at it to
+// tell a run that is slow (a loaded machine, a race build) from one that has stopped moving.
+var Progress atomic.Int64
+
 type Locker interface {
 	Lock()
 	Unlock()
@@ -949,6 +953,7 @@ func (s *Sched) Run(done func() bool) string {
 				return "stuck"
 			}
 			s.Steps++
+			Progress.Add(1)
 			s.sleep(d)
 			continue
 		}
@@ -960,6 +965,7 @@ func (s *Sched) Run(done func() bool) string {
 			}
 		}
 		s.Steps++
+		Progress.Add(1)
 		// --- choose
 		if s.replay != nil {
 			if s.replayPos < len(s.replay) {
